@@ -448,6 +448,28 @@ fn dst(seed: u64, preset: &str, n: usize) -> Result<Transcript, String> {
 fn redis_dst(seed: u64, preset: &str, n: usize) -> Result<Transcript, String> {
     use redis_sim::simulator::dst_integration::RedisDSTSimulation;
     let mut sim = match preset {
+        // generated configuration: "kd=zipf|uniform,keys=K,skew=S,nodes=N,faults=moderate|calm|chaos"
+        p if p.contains('=') => {
+            use redis_sim::simulator::dst_integration::KeyDistribution;
+            let get = |k: &str| p.split(',').find_map(|kv| kv.strip_prefix(k).and_then(|v| v.strip_prefix('=')));
+            let keys: u64 = get("keys").and_then(|v| v.parse().ok()).ok_or("redis_dst: keys=")?;
+            let nodes: usize = get("nodes").and_then(|v| v.parse().ok()).ok_or("redis_dst: nodes=")?;
+            let kd = match get("kd") {
+                Some("uniform") => KeyDistribution::Uniform { num_keys: keys },
+                Some("zipf") => KeyDistribution::Zipfian {
+                    num_keys: keys,
+                    skew: get("skew").and_then(|v| v.parse().ok()).ok_or("redis_dst: skew=")?,
+                },
+                _ => return bad_preset("redis_dst", preset),
+            };
+            let sim = RedisDSTSimulation::with_key_distribution(seed, nodes, kd);
+            match get("faults") {
+                Some("moderate") | None => sim,
+                Some("calm") => sim.with_faults(FaultConfig::calm()),
+                Some("chaos") => sim.with_faults(FaultConfig::chaos()),
+                _ => return bad_preset("redis_dst", preset),
+            }
+        }
         "zipf" => RedisDSTSimulation::new(seed, 5),
         "uniform" => RedisDSTSimulation::new_uniform(seed, 4, 50),
         "calm" => RedisDSTSimulation::new(seed, 3).with_faults(FaultConfig::calm()),
